@@ -20,7 +20,7 @@ ROOT = os.path.dirname(os.path.dirname(os.path.abspath(__file__)))
 OWNER = {"C08_r2": "C19", "C07_r4": "C06", "C18_r4": "C16"}
 
 #: seeded changes no check decides (see the seed's meta.json and DESIGN.md 12.7); they are run and reported, not counted
-UNDECIDED = {"C10_r4"}
+UNDECIDED = set()
 
 
 def sh(cmd, cwd=None, env=None, timeout=3600):
